@@ -1305,6 +1305,16 @@ class RTCSctpTransport(AsyncIOEventEmitter):
         self.__log_debug("<< %s", param)
 
         if isinstance(param, StreamResetOutgoingParam):
+            if uint32_gte(self._reconfig_response_seq, param.request_sequence):
+                # a repeated request which was already carried out, the
+                # streams may be in use again: just repeat the response
+                await self._send_reconfig_param(
+                    StreamResetResponseParam(
+                        response_sequence=param.request_sequence, result=1
+                    )
+                )
+                return
+
             # mark closed inbound streams
             for stream_id in param.streams:
                 self._inbound_streams.pop(stream_id, None)
